@@ -72,10 +72,16 @@ def compare(suite, prefix, fields):
     if len(ops) != len(mod):
         return [{"hist": -1, "field": "line-count", "impl": len(ops), "model": len(mod)}], 0
     diffs, bad, nlines = [], set(), 0
+    ms = suite.__dict__.setdefault("model_stats", {})
     for o, m in zip(ops, mod):
         if o["hist"] in bad:
             continue
         nlines += 1
+        if "scope" in m:
+            # the driver evaluated the decidable hypotheses of the property's theorem on this line
+            ms["assignment_lines"] = ms.get("assignment_lines", 0) + 1
+            if m["scope"]:
+                ms["lines_in_theorem_scope"] = ms.get("lines_in_theorem_scope", 0) + 1
         raw = suite.compare_line(o, m)
         if raw and raw[0][0] == "stop-history":
             bad.add(o["hist"])
@@ -232,6 +238,7 @@ def run(suite, prop, tier, seed, replay=None):
         "traces_validated_against_impl": nlines,
         "histories": int(stats_total.get("histories", 0)),
         "correspondence_divergences": len(diffs),
+        "in_theorem_scope": dict(getattr(suite, "model_stats", {})),
         "oracle_failures": len(failures),
         "input_distribution": {k: val for k, val in sorted(stats_total.items())},
         "builds": [b[0] for b in builds],
